@@ -194,7 +194,7 @@ def _run(V, work, tier):
             a, b = json.loads(vs[0][0]), json.loads(vs[1][0])
             diff = [k for k in a if a[k] != b[k]]
             V.add(None, "two runs of the same program differ in %s (%s vs %s)" % (diff, vs[0][1][0], vs[1][1][0]),
-                  {"src": p["seq"][0], "differs_in": diff, "a": {k: a[k] for k in diff}, "b": {k: b[k] for k in diff}})
+                  {"src": p["seq"][0], "cfg": p.get("cfg") or {}, "differs_in": diff, "a": {k: a[k] for k in diff}, "b": {k: b[k] for k in diff}})
         if pid.startswith("m"):
             d = mach.compare_eval(model[pid][0], out1[pid + "#0"][0])
             if d:
